@@ -76,13 +76,13 @@ CLAIMS = {
          "automated equation on C_n; clique_exact: for EVERY tau >= 1 the clique closed form equals the automated equation on K_tau (automated_clique + Q_eq_connCount); by C15 both closed forms "
          "are the exact bond-percolation expectation over any commutative ring. The harness additionally compares the real functions as polynomial identities for tau <= 7, n <= 12 and Q rows to n = 14.",
          TB + "lru_cache assumed transparent; the equations run on exact polynomial arguments."),
- "C17": ("message_is_expectation (every update is the exact expectation of its motif, from C15), neighbour_product_is_other_motifs (under a consistent cover whose motifs pairwise share at most one vertex), theoretical_formula, range (result and every message in [0,1] for every sweep count), zero_at_zero (iterations >= 1; kernel-checked that 0 sweeps gives a non-zero value), monotone (for EVERY iteration count, by induction over the individual in-place updates using Perc.exactE_antitone), fixed_point_stable, history_independent. Over the reals (Properties/C17Limit.lean): sweep_continuous, limit_is_fixed_point / limit_table_fixed (IF the iteration from the uniform 0.5 start converges, its limit is a table fixed by the sweep, entry-wise and as a table), value_converges (the reported value converges to the value at that fixed point), cast_theoretical / rational_run_limit (the rational model is the real one), converges_at_zero. PARTIAL: that the iteration DOES converge within the default 25 sweeps (converges_full) is analysis with no general rate and is not proved; the harness compares 1-3 sweeps exactly and the default 25 sweeps in double precision to 1e-9.",
-         TB + "labels are taken in parsed form; the real label parser is checked by the harness against the generating structure; Python floats are outside the model except for the bit-exact comparison of the 25-sweep run to 1e-9."),
+ "C17": ("message_is_expectation (every update is the exact expectation of its motif, from C15), neighbour_product_is_other_motifs (under a consistent cover whose motifs pairwise share at most one vertex), theoretical_formula, range (result and every message in [0,1] for every sweep count), zero_at_zero (iterations >= 1; kernel-checked that 0 sweeps gives a non-zero value), monotone (for EVERY iteration count, by induction over the individual in-place updates using Perc.exactE_antitone), fixed_point_stable, history_independent. Over the reals (Properties/C17Limit.lean): sweep_continuous, limit_is_fixed_point / limit_table_fixed (IF the iteration from the uniform 0.5 start converges, its limit is a table fixed by the sweep, entry-wise and as a table), value_converges (the reported value converges to the value at that fixed point), cast_theoretical / rational_run_limit (the rational model is the real one), converges_at_zero. PARTIAL: that the iteration DOES converge within the default 25 sweeps (converges_full) is analysis with no general rate and is not proved; the harness compares 1-3 sweeps exactly and the default 25 sweeps in double precision to 1e-9. Label accessors (Properties/C17Label.lean on Model/LabelParse.lean: split / int / literal_eval on the documented grammar): topology_of_format, id_of_format, vertices_of_format, edges_of_format for every key, member list, edge list and id; fmtLabel_injective.",
+         TB + "the model is handed the label strings stored in the graph and parses them with its model of the mixin's accessors, which is compared with the real accessors on every label, on other spellings and on malformed labels; int / literal_eval are modelled on the grammar of the documented labels only (signs, underscores, floats, strings, deeper nesting are outside); Python floats are outside the model except for the bit-exact comparison of the 25-sweep run to 1e-9."),
  "C19": ("About the real-number functions the code computes: expo_nonneg/expo_hasSum_one, pois_nonneg/pois_hasSum_one, both truncation loops terminate in the documented parameter range (and the zeta loop provably does not for alpha <= 0), zeta_tail_bound (0 < zeta - C <= K*tol), powerLaw_close / powerLaw_sum (relative error K*tol), polylog_tail_bound, cutoff_close / cutoff_sum (relative error tol/(1-z)); zetaLoop_spec / polylogLoop_spec tie the executable rational loops of Model/Distributions.lean to these definitions. PARTIAL by nature: floating-point rounding and numpy.exp are outside the model and are covered only numerically (60-digit reference, relative 1e-9 plus the proved bound).",
          TB + "numerical comparison with tolerances is used for this property only; for integer alpha the truncated normaliser and its stopping index are compared with the executable Lean model."),
  "C11": ("One-step theorems for the model of a proposal (corner lists validated as sets, suitability with the repaired membership clause, application of an accepted swap), lifted to every history by steps_invariant: vertex set and annotations untouched (nodes_preserved), WF preserved incl. no self-loop and no collapsed duplicate (wf_preserved, no_self_loop_created, incoming_vertex_outside_motif), edge_count_preserved, topology_degrees_preserved, suitable_applies (no 'edge already present' error). Motif shape: KNOWN FINDING, not repaired (DESIGN 0.2): known_finding_ids_exchanged is the kernel-checked witness that the code as written exchanges the motif ids of the swapped corners; fixed_step_preserves_shape proves that the intended assignment maps each motif's edge set by the substitution u0 -> v0, injective on the motif's vertices. The check prints KNOWN-FINDING for exactly that signature and reports any other shape violation. The whole of rewire() is modelled as well (Model/Rewire.lean: both while-loops, limits and counters, the drawable edge set driven by the same add/remove calls on the C20 model): rewire_steps derives the hypothesis of the one-step theorems from the loop's own tests, so rewire_invariants (vertices, annotations, edge count, topology degrees, simple graph) holds of what rewire() returns for every script of draws, any limits, both attribute assignments; rewire_sync (drawable set = edge set), rewire_no_internal_error, rewire_done_count (limit + 1 accepted swaps), rewire_count_accepts.",
          TB + "networkx edge-iteration order is not modelled (corner lists are validated inputs of the model), nor logging and the acceptance-ratio list; every swap_condition call of a run is captured with the graph before it and replayed in the model, and the whole loop is replayed from the recorded draws, get_all_edges results and per-proposal uniform numbers (trace, accepted count, way of ending, final graph compared); constructor defaults are checked by the harness only."),
- "C12": ("created_edges_allowed / created_edges_positive: an accepted proposal only creates pairings whose target entries exist and are non-zero (positive under a non-negative target) — for every topology, every corner size; ratio_is_metropolis (top/bottom is the product of created weights over removed weights and exceeds the uniform draw), numerator_ne_zero, no_divide_by_zero (under 'existing edges keep non-zero weight'; a kernel-checked witness shows the hypothesis is needed), detailed_balance. PARTIAL: approaches_target_full (distance to a full-support target decreases) is a statement about a random process and is not proved.",
+ "C12": ("created_edges_allowed / created_edges_positive: an accepted proposal only creates pairings whose target entries exist and are non-zero (positive under a non-negative target) — for every topology, every corner size; ratio_is_metropolis (top/bottom is the product of created weights over removed weights and exceeds the uniform draw), numerator_ne_zero, no_divide_by_zero (under 'existing edges keep non-zero weight'; a kernel-checked witness shows the hypothesis is needed), detailed_balance. Lifted to the whole function (Properties/C12Loop.lean on the loop model Model/Rewire.lean): rewire_created_edges_allowed / rewire_created_edges_positive — every entry of the edge table rewire() returns is an entry of the input's table or joins a pairing with non-zero (positive, under a non-negative target) target weight, for every script of draws, any limits, both attribute assignments. PARTIAL: approaches_target_full (distance to a full-support target decreases) is a statement about a random process and is not proved.",
          TB + "the uniform draw is injected; target weights are exact rationals; convergence is not decided."),
 }
 
